@@ -56,6 +56,13 @@ func balanceReplay(e *env) error {
 				}
 			}
 		}
+		for _, f := range c.XBook {
+			for _, s := range f.Path {
+				if s > maxSeg {
+					maxSeg = s
+				}
+			}
+		}
 		segs := pickNames(rng, segPool, maxSeg)
 		join := func(p []int) string {
 			parts := make([]string, len(p))
